@@ -159,6 +159,66 @@ def assoc_shard(args):
     return agg
 
 
+def prior_use_shard(args):
+    """Using an object (reading its fields, so that its asserts are checked and its fields memoised) before it is
+    extended must not change what the extension means: late binding and asserts apply to the final object."""
+    seed, n = args
+    rng = random.Random(seed)
+    agg = Agg()
+    ev = Ev(agg)
+    try:
+        for i in range(n):
+            k = rng.choice([2, 2, 3])
+            if rng.random() < 0.5:
+                # targeted family: an assert / a late-bound field that the extension changes
+                x0, x1 = rng.choice([(1, -1), (5, 0), (2, 2), (1, 10), (0, 1)])
+                objs = [rng.choice(["{assert self.x > 0 : 'x must be positive', x: %d, y: self.x * 2}" % x0,
+                                    "{assert self.x > 0, x: %d}" % x0,
+                                    "{x: %d, y: self.x + 1, assert self.y != 1 : 'y'}" % x0,
+                                    "{assert self.x > 0 : 'base'} + {x: %d, n: self.x}" % x0,
+                                    "{local l = self.x, x: %d, z: l}" % x0]),
+                        rng.choice(["{x: %d}" % x1, "{x+: %d}" % x1, "{x:: %d}" % x1, "{x: %d, w: super.x}" % x1,
+                                    "{[k]: %d for k in ['x']}" % x1])]
+                if k == 3:
+                    objs.append(rng.choice(["{}", "{x: 3}", "{q: self.x}", "{assert self.x != 3 : 'three'}"]))
+            else:
+                objs = [gen_obj_src(rng, rng.choice([1, 2])) for _ in range(k)]
+            names = ["O%d" % j for j in range(len(objs))]
+            head = "local " + ", ".join("%s = %s" % (nm, src) for nm, src in zip(names, objs)) + "; "
+            combo = " + ".join(names)
+            base = ev.run(head + combo, walk=1, stack=2000)
+            if base.cls in ("inconclusive", "panic", "crash"):
+                continue
+            # which operands can be used on their own?
+            usable = []
+            for nm in names:
+                r1 = ev.run(head + "std.length(std.toString(%s))" % nm, walk=1, stack=2000)
+                if r1.cls == "value":
+                    usable.append(nm)
+            if not usable:
+                continue
+            pick = rng.sample(usable, rng.randint(1, len(usable)))
+            uses = " + ".join(rng.choice(["std.length(std.toString(%s))", "(if %s == %s then 1 else 0)",
+                                         "std.length(std.objectFields(%s))"]).replace("%s", nm) for nm in pick)
+            src2 = head + "local used = %s; if used >= 0 then %s else null" % (uses, combo)
+            r2 = ev.run(src2, walk=1, stack=2000)
+            if r2.cls == "inconclusive":
+                continue
+            desc = {"objects": objs, "used_first": pick, "program": src2[:1500]}
+            if r2.cls in ("panic", "crash"):
+                agg.violation(common.panic_signature(r2), desc, {"script": r2.lines})
+                continue
+            if not same_out(out_key(base), out_key(r2)):
+                agg.violation({"kind": "prior_use_changes_extension", "base": base.cls, "after_use": r2.cls},
+                              dict(desc, without_prior_use=base.brief(), with_prior_use=r2.brief()), {"script": r2.lines})
+                continue
+            agg.count("prior_use:" + base.cls)
+            agg.nontrivial.add(common.h64(src2))
+    finally:
+        ev.close()
+    return agg
+
+
 def model_shard(args):
     """Manifest + visibility table against the reference model (object-heavy programs)."""
     seed, n = args
@@ -304,6 +364,9 @@ def run(tier, seed):
     n3 = 1600 if quick else 100_000
     for a in common.pmap(remove_key_shard, [(seed * 1117 + i, n3 // 16) for i in range(16)]):
         total.merge(a)
+    n4 = 2400 if quick else 150_000
+    for a in common.pmap(prior_use_shard, [(seed * 1123 + i, n4 // 16) for i in range(16)]):
+        total.merge(a)
     for a in common.pmap(templates_shard, [(seed,)]):
         total.merge(a)
     rule = ("chains of 2-5 generated object expressions (self, super.f, super[e], e in super, +:, three visibilities, "
@@ -313,7 +376,9 @@ def run(tier, seed):
             "objectHas(All), in) must be identical; agreement laws between manifestation and introspection on every "
             "chain; manifest and visibility table of object-heavy programs against the reference model; "
             "objectRemoveKey: field tables minus the key with other visibilities unchanged, removed twice, re-added, "
-            "values of fields that do not read the removed key intact (decided by a probe that makes the key fail). "
+            "values of fields that do not read the removed key intact (decided by a probe that makes the key fail); "
+            "prior use: reading/comparing/stringifying operands before they are combined never changes the combination "
+            "(asserts and late-bound fields apply to the final object). "
             "distinct_nontrivial = distinct chains / programs / (object, key) pairs fully compared.")
     return common.finish(PROP, tier, seed, total, rule, t0,
                          assumptions=["reference model as in C02", "a field 'does not read' key K iff it still evaluates when K is overridden by a failing field"])
